@@ -35,9 +35,19 @@ Back(line) ==
       \cup Ds("v2_again_servers", "back", Diff(Srv2(d, withSchemes), Srv2(b, withSchemes), <<"servers">>))
       \cup {V("v2_again_reference_not_v2", "back", <<"$ref">>, Absent, S(r)) : r \in badRefs}
 
+(* A conversion does not edit the document it is given: the input marshalled again after *)
+(* the call (rd2 for ToV3, d3b for FromV3) is the document marshalled before it.         *)
+InputKept(line) ==
+   (IF "rd2" \in DOMAIN line /\ "rd" \in DOMAIN line
+    THEN Ds("to_v3_changed_its_input", "input2", Diff(line.rd, line.rd2, <<>>)) ELSE {})
+   \cup
+   (IF "d3b" \in DOMAIN line /\ "d3" \in DOMAIN line
+    THEN Ds("from_v3_changed_its_input", "input3", Diff(line.d3, line.d3b, <<>>)) ELSE {})
+
 Violations(line) ==
    IF Step(line, "un") # "ok" THEN Plain("v2_document_not_read_" \o Step(line, "un"))
    ELSE Ds("realised_differs", "realise", ApiDiff(Api2(line.d), Api2(line.rd)))
+        \cup InputKept(line)
         \cup (IF Step(line, "to3") # "ok" THEN Plain("to_v3_" \o Step(line, "to3"))
               ELSE (IF line.val # "ok" THEN Plain("v3_invalid_" \o line.val) ELSE {})
                    \cup (IF line.lval # "ok" THEN Plain("v3_reloaded_invalid_" \o line.lval) ELSE {})
